@@ -45,6 +45,10 @@ class DiscStorage:
             return set()
 
     def persist(self, name):
+        if "*" not in name:
+            # the name contains the complete hash (hash-length >= 64),
+            # but the data might still be stored as <hash>-new.<suffix>
+            name = name.replace(".", "*.", 1)
         try:
             file = self._lookup_path(name)
         except HashError:
